@@ -469,3 +469,49 @@ func Harness_C16_InterruptRightAfterInvocation() {
 	}
 	vCover("interrupt-after-invocation-checked")
 }
+
+// SubscribeChan: events handed to the application's channel arrive there in
+// the order the router sent them, however slowly the application reads
+func vC16SubscribeChanOrder(budget int) {
+	cl, rt := vNewClient(2 * time.Second)
+	events := make(chan *wamp.Event, vChoice("channel-capacity", 2))
+	err := cl.SubscribeChan("t", events, nil)
+	vAssert("subscribed", err == nil)
+	subID, _ := cl.SubscriptionID("t")
+	vSetPreempt(budget)
+	const n = 3
+	sent := make(chan struct{})
+	go func() {
+		for k := 1; k <= n; k++ {
+			rt.send(&wamp.Event{Subscription: subID, Publication: wamp.ID(k), Details: wamp.Dict{}, Arguments: wamp.List{k}})
+		}
+		close(sent)
+	}()
+	// the application is busy for a while, then reads
+	vQuiesce()
+	last := wamp.ID(0)
+	for k := 1; k <= n; k++ {
+		ev := <-events
+		vAssert("events-reach-the-channel-in-arrival-order", ev.Publication > last)
+		last = ev.Publication
+		if vBool("application-pauses-between-reads") {
+			vQuiesce()
+		}
+	}
+	<-sent
+	vSetPreempt(0)
+	done := make(chan struct{})
+	go func() { cl.Close(); close(done) }()
+	vQuiesce()
+	vAdvance(int64(5 * time.Second))
+	vQuiesce()
+	select {
+	case <-done:
+	default:
+		vAssert("close-returns", false)
+	}
+	vCover("subscribe-chan-order-checked")
+}
+
+func Harness_C16_SubscribeChanOrder_1() { vC16SubscribeChanOrder(1) }
+func Harness_C16_SubscribeChanOrder_2() { vC16SubscribeChanOrder(2) }
